@@ -5,6 +5,7 @@ import BiscuitModel.Props.C04
 import BiscuitModel.Props.C05
 import BiscuitModel.Props.C07
 import BiscuitModel.Lemmas.Congr
+import BiscuitModel.Lemmas.KeyMapCongr
 namespace Biscuit.C03
 open Biscuit Biscuit.C05
 
@@ -297,10 +298,101 @@ theorem mem_worldFacts_append (blocks : List Block) (b : Block) (az : Authorizer
     · exact .inr h
     · exact .inl (.inr h)
 
-theorem mem_worldRules_append (blocks : List Block) (b : Block) (az : AuthorizerData) (hb : b.extKey = none) (r : SRule) :
-    r ∈ worldRules (blocks ++ [b]) az ↔ r ∈ worldRules blocks az ∨ r ∈ blockRules (keyMap blocks) blocks.length b := by
-  simp only [worldRules, keyMap_append_none blocks b hb, enumFrom_append, List.flatMap_append, List.mem_append,
-    List.flatMap_cons, List.flatMap_nil, List.append_nil, Nat.zero_add]
+/-- **The appended block does not change what the earlier elements trust**: the scope lists of
+    every block that existed before `b`, and of the authorizer, give the same trusted sets whether
+    or not `b` is registered in the key → blocks map.  Trivially so for a first-party block
+    (`oldSame_first_party`); for a third-party block signed by a key no earlier scope names
+    (`oldSame_unnamed`). -/
+structure OldSame (blocks : List Block) (b : Block) (az : AuthorizerData) : Prop where
+  blockScopes : ∀ ib ∈ enumFrom 0 blocks,
+    trustedFromScopes ib.2.scopes defaultTrusted ib.1 (keyMap (blocks ++ [b])) =
+      trustedFromScopes ib.2.scopes defaultTrusted ib.1 (keyMap blocks)
+  blockRules : ∀ ib ∈ enumFrom 0 blocks, ∀ q ∈ ib.2.rules, ∀ d,
+    trustedFromScopes q.scopes d ib.1 (keyMap (blocks ++ [b])) = trustedFromScopes q.scopes d ib.1 (keyMap blocks)
+  blockChecks : ∀ ib ∈ enumFrom 0 blocks, ∀ c ∈ ib.2.checks, ∀ q ∈ c.queries, ∀ d,
+    trustedFromScopes q.scopes d ib.1 (keyMap (blocks ++ [b])) = trustedFromScopes q.scopes d ib.1 (keyMap blocks)
+  azScopes : trustedFromScopes az.scopes defaultTrusted authorizerId (keyMap (blocks ++ [b])) =
+    trustedFromScopes az.scopes defaultTrusted authorizerId (keyMap blocks)
+  azRules : ∀ q ∈ az.rules, ∀ d,
+    trustedFromScopes q.scopes d authorizerId (keyMap (blocks ++ [b])) = trustedFromScopes q.scopes d authorizerId (keyMap blocks)
+  azChecks : ∀ c ∈ az.checks, ∀ q ∈ c.queries, ∀ d,
+    trustedFromScopes q.scopes d authorizerId (keyMap (blocks ++ [b])) = trustedFromScopes q.scopes d authorizerId (keyMap blocks)
+  azPolicies : ∀ p ∈ az.policies, ∀ q ∈ p.queries, ∀ d,
+    trustedFromScopes q.scopes d authorizerId (keyMap (blocks ++ [b])) = trustedFromScopes q.scopes d authorizerId (keyMap blocks)
+
+theorem oldSame_first_party (blocks : List Block) (b : Block) (az : AuthorizerData) (hext : b.extKey = none) :
+    OldSame blocks b az := by
+  have hkm := keyMap_append_none blocks b hext
+  constructor <;> intros <;> rw [hkm]
+
+/-- no scope list of the token's blocks or of the authorizer names the public key `k` -/
+structure Unnamed (k : Nat) (blocks : List Block) (az : AuthorizerData) : Prop where
+  blockScopes : ∀ ob ∈ blocks, Scope.publicKey k ∉ ob.scopes
+  blockRules : ∀ ob ∈ blocks, ∀ q ∈ ob.rules, Scope.publicKey k ∉ q.scopes
+  blockChecks : ∀ ob ∈ blocks, ∀ c ∈ ob.checks, ∀ q ∈ c.queries, Scope.publicKey k ∉ q.scopes
+  azScopes : Scope.publicKey k ∉ az.scopes
+  azRules : ∀ q ∈ az.rules, Scope.publicKey k ∉ q.scopes
+  azChecks : ∀ c ∈ az.checks, ∀ q ∈ c.queries, Scope.publicKey k ∉ q.scopes
+  azPolicies : ∀ p ∈ az.policies, ∀ q ∈ p.queries, Scope.publicKey k ∉ q.scopes
+
+theorem mem_enumFrom_mem {α : Type} (xs : List α) : ∀ i (ib : Nat × α), ib ∈ enumFrom i xs → ib.2 ∈ xs := by
+  induction xs with
+  | nil => intro i ib h; simp [enumFrom] at h
+  | cons x xs ih =>
+    intro i ib h
+    simp only [enumFrom, List.mem_cons] at h
+    rcases h with rfl | h
+    · simp
+    · exact List.mem_cons_of_mem _ (ih (i + 1) ib h)
+
+theorem oldSame_unnamed (blocks : List Block) (b : Block) (az : AuthorizerData) (k : Nat) (hext : b.extKey = some k)
+    (hun : Unnamed k blocks az) : OldSame blocks b az := by
+  have key : ∀ (scopes : List Scope) (d : List Nat) (c : Nat), Scope.publicKey k ∉ scopes →
+      trustedFromScopes scopes d c (keyMap (blocks ++ [b])) = trustedFromScopes scopes d c (keyMap blocks) := by
+    intro scopes d c hn
+    apply KMC.tfs_congr_get
+    intro k' hk'
+    exact KMC.keyMap_append_some_get blocks b k hext k' (fun e => hn (e ▸ hk'))
+  constructor
+  · intro ib hib; exact key _ _ _ (hun.blockScopes _ (mem_enumFrom_mem blocks 0 ib hib))
+  · intro ib hib q hq d; exact key _ _ _ (hun.blockRules _ (mem_enumFrom_mem blocks 0 ib hib) q hq)
+  · intro ib hib c hc q hq d; exact key _ _ _ (hun.blockChecks _ (mem_enumFrom_mem blocks 0 ib hib) c hc q hq)
+  · exact key _ _ _ hun.azScopes
+  · intro q hq d; exact key _ _ _ (hun.azRules q hq)
+  · intro c hc q hq d; exact key _ _ _ (hun.azChecks c hc q hq)
+  · intro p hp q hq d; exact key _ _ _ (hun.azPolicies p hp q hq)
+
+theorem flatMap_congr_mem {α β : Type} (l : List α) (f g : α → List β) (h : ∀ x ∈ l, f x = g x) :
+    l.flatMap f = l.flatMap g := by
+  induction l with
+  | nil => rfl
+  | cons x xs ih =>
+    simp only [List.flatMap_cons, h x List.mem_cons_self, ih (fun y hy => h y (List.mem_cons_of_mem _ hy))]
+
+theorem map_congr_mem {α β : Type} (l : List α) (f g : α → β) (h : ∀ x ∈ l, f x = g x) : l.map f = l.map g := by
+  induction l with
+  | nil => rfl
+  | cons x xs ih =>
+    simp only [List.map_cons, h x List.mem_cons_self, ih (fun y hy => h y (List.mem_cons_of_mem _ hy))]
+
+theorem mem_worldRules_append (blocks : List Block) (b : Block) (az : AuthorizerData) (hos : OldSame blocks b az) (r : SRule) :
+    r ∈ worldRules (blocks ++ [b]) az ↔
+      r ∈ worldRules blocks az ∨ r ∈ blockRules (keyMap (blocks ++ [b])) blocks.length b := by
+  have hold : (enumFrom 0 blocks).flatMap (fun ib => blockRules (keyMap (blocks ++ [b])) ib.1 ib.2) =
+      (enumFrom 0 blocks).flatMap (fun ib => blockRules (keyMap blocks) ib.1 ib.2) := by
+    apply flatMap_congr_mem
+    intro ib hib
+    simp only [blockRules, hos.blockScopes ib hib]
+    exact map_congr_mem _ _ _ (fun q hq => by rw [hos.blockRules ib hib q hq])
+  have haz : az.rules.map (fun q => (⟨trustedFromScopes q.scopes (authorizerTrusted az (keyMap (blocks ++ [b]))) authorizerId
+        (keyMap (blocks ++ [b])), authorizerId, q.rule⟩ : SRule)) =
+      az.rules.map (fun q => ⟨trustedFromScopes q.scopes (authorizerTrusted az (keyMap blocks)) authorizerId (keyMap blocks),
+        authorizerId, q.rule⟩) := by
+    apply map_congr_mem
+    intro q hq
+    simp only [authorizerTrusted, hos.azScopes, hos.azRules q hq]
+  simp only [worldRules, enumFrom_append, List.flatMap_append, List.mem_append,
+    List.flatMap_cons, List.flatMap_nil, List.append_nil, Nat.zero_add, hold, haz]
   constructor
   · rintro ((h | h) | h)
     · exact .inl (.inl h)
@@ -329,7 +421,7 @@ theorem old_rules_avoid (blocks : List Block) (az : AuthorizerData) (hn0 : block
 /-- **What the original world shows to anyone who does not trust the new block is what the
     extended world shows them.** -/
 theorem worlds_vis_same (syms : SymbolTable) (blocks : List Block) (b : Block) (az : AuthorizerData)
-    (lim lim' : Limits) (hn0 : blocks.length ≠ 0) (hnA : blocks.length < authorizerId) (hext : b.extKey = none)
+    (lim lim' : Limits) (hn0 : blocks.length ≠ 0) (hnA : blocks.length < authorizerId) (hos : OldSame blocks b az)
     (hrune : (runProgram (worldProgram syms (blocks ++ [b]) az) lim).result = .ok ())
     (hruno : (runProgram (worldProgram syms blocks az) lim').result = .ok ()) :
     VisSame blocks.length (runProgram (worldProgram syms (blocks ++ [b]) az) lim).facts
@@ -337,30 +429,30 @@ theorem worlds_vis_same (syms : SymbolTable) (blocks : List Block) (b : Block) (
   intro T hT x
   simp only [C04.visible_spec, run_exact _ _ hrune, run_exact _ _ hruno]
   have hbridge : ∀ y, Derives (worldProgram syms (blocks ++ [b]) az) y ↔
-      Derives (extend (worldProgram syms blocks az) blocks.length b.facts (blockRules (keyMap blocks) blocks.length b)) y := by
+      Derives (extend (worldProgram syms blocks az) blocks.length b.facts (blockRules (keyMap (blocks ++ [b])) blocks.length b)) y := by
     intro y
     constructor
     · exact derives_congr (worldProgram syms (blocks ++ [b]) az)
-        (extend (worldProgram syms blocks az) blocks.length b.facts (blockRules (keyMap blocks) blocks.length b)) rfl
+        (extend (worldProgram syms blocks az) blocks.length b.facts (blockRules (keyMap (blocks ++ [b])) blocks.length b)) rfl
         (fun z hz => by
           show z ∈ worldFacts blocks az ++ b.facts.map (fun f => ([blocks.length], f))
           rw [List.mem_append]
           exact (mem_worldFacts_append blocks b az z).mp hz)
         (fun r hr => by
-          show r ∈ worldRules blocks az ++ blockRules (keyMap blocks) blocks.length b
+          show r ∈ worldRules blocks az ++ blockRules (keyMap (blocks ++ [b])) blocks.length b
           rw [List.mem_append]
-          exact (mem_worldRules_append blocks b az hext r).mp hr) y
+          exact (mem_worldRules_append blocks b az hos r).mp hr) y
     · exact derives_congr
-        (extend (worldProgram syms blocks az) blocks.length b.facts (blockRules (keyMap blocks) blocks.length b))
+        (extend (worldProgram syms blocks az) blocks.length b.facts (blockRules (keyMap (blocks ++ [b])) blocks.length b))
         (worldProgram syms (blocks ++ [b]) az) rfl
         (fun z hz => by
           have hz' : z ∈ worldFacts blocks az ++ b.facts.map (fun f => ([blocks.length], f)) := hz
           rw [List.mem_append] at hz'
           exact (mem_worldFacts_append blocks b az z).mpr hz')
         (fun r hr => by
-          have hr' : r ∈ worldRules blocks az ++ blockRules (keyMap blocks) blocks.length b := hr
+          have hr' : r ∈ worldRules blocks az ++ blockRules (keyMap (blocks ++ [b])) blocks.length b := hr
           rw [List.mem_append] at hr'
-          exact (mem_worldRules_append blocks b az hext r).mpr hr') y
+          exact (mem_worldRules_append blocks b az hos r).mpr hr') y
   constructor
   · rintro ⟨hd, hsub⟩
     refine ⟨?_, hsub⟩
@@ -373,23 +465,16 @@ theorem worlds_vis_same (syms : SymbolTable) (blocks : List Block) (b : Block) (
   · rintro ⟨hd, hsub⟩
     exact ⟨(hbridge x).mpr (derives_mono _ _ _ _ x hd), hsub⟩
 
-/-- **C03, end to end, for error-free evaluations.** If the token extended by a first-party block
-    `b` is authorized by policy `i`, then — provided the original token's run stays within its
-    limits and no expression fails while the checks and policies of the extended token are
-    evaluated — the original token is authorized by the same policy `i`: the appended block's
-    facts and rules are invisible to every earlier block and to the authorizer, and its checks
-    can only refuse.  (`_partial`: third-party blocks, which *are* visible to the scopes naming
-    their key, and evaluations with expression errors, whose outcome depends on iteration order
-    — C11 — are outside this statement.) -/
-theorem attenuation_monotone_partial (syms : SymbolTable) (blocks : List Block) (b : Block) (az : AuthorizerData)
+/-- the core of C03: whatever makes the earlier elements trust the same origins with and without
+    the appended block (`OldSame`) makes the appended block unable to grant access -/
+theorem attenuation_monotone_core (syms : SymbolTable) (blocks : List Block) (b : Block) (az : AuthorizerData)
     (lim lim' : Limits) (i : Nat)
-    (hne : blocks ≠ []) (hnA : blocks.length < authorizerId) (hext : b.extKey = none)
+    (hne : blocks ≠ []) (hnA : blocks.length < authorizerId) (hos : OldSame blocks b az)
     (hruno : (runProgram (worldProgram syms blocks az) lim').result = .ok ())
     (hnoerr : AllNoErr syms (runProgram (worldProgram syms (blocks ++ [b]) az) lim).facts (blocks ++ [b]) az)
     (h : authorize syms (blocks ++ [b]) az lim = .ok i) :
     authorize syms blocks az lim' = .ok i := by
   have hn0 : blocks.length ≠ 0 := fun h0 => hne (List.length_eq_zero_iff.mp h0)
-  have hkm := keyMap_append_none blocks b hext
   rw [authorize_eq] at h
   cases hrune : (runProgram (worldProgram syms (blocks ++ [b]) az) lim).result with
   | error e => rw [hrune] at h; cases h
@@ -397,9 +482,8 @@ theorem attenuation_monotone_partial (syms : SymbolTable) (blocks : List Block) 
     cases u
     rw [hrune] at h
     simp only at h
-    have hv := worlds_vis_same syms blocks b az lim lim' hn0 hnA hext hrune hruno
+    have hv := worlds_vis_same syms blocks b az lim lim' hn0 hnA hos hrune hruno
     obtain ⟨f1, f2, f3, h1, h2, hp, h3, hnil⟩ := (decide_ok_iff _ _ _ _ _).mp h
-    rw [hkm] at h1 h2 hp h3
     have hdef : blocks.length ∉ defaultTrusted := default_excludes_new _ hn0 (by omega)
     have hazT : blocks.length ∉ authorizerTrusted az (keyMap blocks) :=
       old_trusted_avoid blocks _ rfl hn0 hnA _ _ _ (.inr rfl) hdef
@@ -420,7 +504,31 @@ theorem attenuation_monotone_partial (syms : SymbolTable) (blocks : List Block) 
       rw [henum, List.drop_append_of_le_length hpos]
     rw [htake] at h2
     rw [hdrop] at h3
-    have h3' := blocksFailed_append syms _ (keyMap blocks) _ _ h3
+    have h3' := blocksFailed_append syms _ (keyMap (blocks ++ [b])) _ _ h3
+    -- the earlier elements evaluate alike under the key map of the extended and of the original token
+    have hazTe : authorizerTrusted az (keyMap (blocks ++ [b])) = authorizerTrusted az (keyMap blocks) := hos.azScopes
+    have h1k : failedChecks syms (runProgram (worldProgram syms (blocks ++ [b]) az) lim).facts (keyMap blocks)
+        (authorizerTrusted az (keyMap blocks)) authorizerId FailedCheck.authorizer 0 az.checks = .ok [] := by
+      rw [← KMC.failedChecks_congr syms _ (keyMap (blocks ++ [b])) (keyMap blocks)
+        (authorizerTrusted az (keyMap (blocks ++ [b]))) (authorizerTrusted az (keyMap blocks)) authorizerId _ az.checks 0
+        (fun c hc q hq => by rw [hazTe]; exact hos.azChecks c hc q hq _)]
+      exact h1
+    have hpk : firstPolicy syms (runProgram (worldProgram syms (blocks ++ [b]) az) lim).facts (keyMap blocks)
+        (authorizerTrusted az (keyMap blocks)) 0 az.policies = .ok (some (.allow, i)) := by
+      rw [← KMC.firstPolicy_congr syms _ (keyMap (blocks ++ [b])) (keyMap blocks)
+        (authorizerTrusted az (keyMap (blocks ++ [b]))) (authorizerTrusted az (keyMap blocks)) az.policies 0
+        (fun p hp' q hq => by rw [hazTe]; exact hos.azPolicies p hp' q hq _)]
+      exact hp
+    have hold : ∀ ibs : List (Nat × Block), (∀ ib ∈ ibs, ib ∈ enumFrom 0 blocks) →
+        blocksFailed syms (runProgram (worldProgram syms (blocks ++ [b]) az) lim).facts (keyMap (blocks ++ [b])) ibs =
+          blocksFailed syms (runProgram (worldProgram syms (blocks ++ [b]) az) lim).facts (keyMap blocks) ibs :=
+      fun ibs hsub => KMC.blocksFailed_congr syms _ _ _ ibs
+        (fun ib hib => hos.blockScopes ib (hsub ib hib))
+        (fun ib hib c hc q hq d => hos.blockChecks ib (hsub ib hib) c hc q hq d)
+    have h2k := h2
+    rw [hold _ (fun ib hib => List.mem_of_mem_take hib)] at h2k
+    have h3k := h3'
+    rw [hold _ (fun ib hib => List.mem_of_mem_drop hib)] at h3k
     have hblockAvoid : ∀ ib ∈ enumFrom 0 blocks, ∀ c ∈ ib.2.checks,
         ScopesAvoid blocks.length (keyMap blocks) (trustedFromScopes ib.2.scopes defaultTrusted ib.1 (keyMap blocks)) ib.1 c.queries := by
       intro ib hib c _ q _
@@ -432,27 +540,64 @@ theorem attenuation_monotone_partial (syms : SymbolTable) (blocks : List Block) 
           (trustedFromScopes ib.2.scopes defaultTrusted ib.1 (keyMap blocks)) ib.1 c.queries := by
       intro ib hib c hc
       have := hnoerr.blockChecks ib (by rw [henum]; exact List.mem_append_left _ hib) c hc
-      rwa [hkm] at this
+      exact KMC.CheckNoErr_congr syms _ (keyMap (blocks ++ [b])) (keyMap blocks)
+        (trustedFromScopes ib.2.scopes defaultTrusted ib.1 (keyMap (blocks ++ [b])))
+        (trustedFromScopes ib.2.scopes defaultTrusted ib.1 (keyMap blocks)) ib.1 c.queries
+        (fun q hq => by rw [hos.blockScopes ib hib]; exact hos.blockChecks ib hib c hc q hq _) this
     rw [authorize_eq, hruno]
     simp only
     apply (decide_ok_iff _ _ _ _ _).mpr
     refine ⟨[], [], [], ?_, ?_, ?_, ?_, rfl⟩
     · rw [← failedChecks_vis hv syms _ _ _ _ az.checks 0
         (fun c _ q _ => old_trusted_avoid blocks _ rfl hn0 hnA _ _ _ (.inr rfl) hazT)
-        (fun c hc => by have := hnoerr.azChecks c hc; rwa [hkm] at this)]
-      exact h1
+        (fun c hc => KMC.CheckNoErr_congr syms _ (keyMap (blocks ++ [b])) (keyMap blocks)
+          (authorizerTrusted az (keyMap (blocks ++ [b]))) (authorizerTrusted az (keyMap blocks)) authorizerId c.queries
+          (fun q hq => by rw [hazTe]; exact hos.azChecks c hc q hq _) (hnoerr.azChecks c hc))]
+      exact h1k
     · rw [← blocksFailed_vis hv syms _ _
         (fun ib hib => hblockAvoid ib (List.mem_of_mem_take hib))
         (fun ib hib => hblockNoErr ib (List.mem_of_mem_take hib))]
-      exact h2
+      exact h2k
     · rw [← firstPolicy_vis hv syms _ _ az.policies 0
         (fun p _ q _ => old_trusted_avoid blocks _ rfl hn0 hnA _ _ _ (.inr rfl) hazT)
-        (fun p hp' => by have := hnoerr.policies p hp'; rwa [hkm] at this)]
-      exact hp
+        (fun p hp' => KMC.CheckNoErr_congr syms _ (keyMap (blocks ++ [b])) (keyMap blocks)
+          (authorizerTrusted az (keyMap (blocks ++ [b]))) (authorizerTrusted az (keyMap blocks)) authorizerId p.queries
+          (fun q hq => by rw [hazTe]; exact hos.azPolicies p hp' q hq _) (hnoerr.policies p hp'))]
+      exact hpk
     · rw [← blocksFailed_vis hv syms _ _
         (fun ib hib => hblockAvoid ib (List.mem_of_mem_drop hib))
         (fun ib hib => hblockNoErr ib (List.mem_of_mem_drop hib))]
-      exact h3'
+      exact h3k
+
+/-- **C03, end to end, for error-free evaluations.** If the token extended by a first-party block
+    `b` is authorized by policy `i`, then — provided the original token's run stays within its
+    limits and no expression fails while the checks and policies of the extended token are
+    evaluated — the original token is authorized by the same policy `i`: the appended block's
+    facts and rules are invisible to every earlier block and to the authorizer, and its checks
+    can only refuse.  (`_partial`: evaluations with expression errors, whose outcome depends on
+    iteration order — C11 — are outside this statement; third-party blocks are the next theorem.) -/
+theorem attenuation_monotone_partial (syms : SymbolTable) (blocks : List Block) (b : Block) (az : AuthorizerData)
+    (lim lim' : Limits) (i : Nat)
+    (hne : blocks ≠ []) (hnA : blocks.length < authorizerId) (hext : b.extKey = none)
+    (hruno : (runProgram (worldProgram syms blocks az) lim').result = .ok ())
+    (hnoerr : AllNoErr syms (runProgram (worldProgram syms (blocks ++ [b]) az) lim).facts (blocks ++ [b]) az)
+    (h : authorize syms (blocks ++ [b]) az lim = .ok i) :
+    authorize syms blocks az lim' = .ok i :=
+  attenuation_monotone_core syms blocks b az lim lim' i hne hnA (oldSame_first_party blocks b az hext) hruno hnoerr h
+
+/-- **C03 for third-party blocks.** The same for a block carrying an external signature by key
+    `k`, provided no scope of the earlier blocks or of the authorizer names `k` (a scope that
+    names `k` trusts, by design, whatever `k` signed: that is the one way a third-party block is
+    meant to be seen).  Whatever the appended block itself trusts, states, derives or checks, it
+    cannot make a refused token accepted. -/
+theorem attenuation_monotone_third_party_partial (syms : SymbolTable) (blocks : List Block) (b : Block) (az : AuthorizerData)
+    (lim lim' : Limits) (i k : Nat)
+    (hne : blocks ≠ []) (hnA : blocks.length < authorizerId) (hext : b.extKey = some k) (hun : Unnamed k blocks az)
+    (hruno : (runProgram (worldProgram syms blocks az) lim').result = .ok ())
+    (hnoerr : AllNoErr syms (runProgram (worldProgram syms (blocks ++ [b]) az) lim).facts (blocks ++ [b]) az)
+    (h : authorize syms (blocks ++ [b]) az lim = .ok i) :
+    authorize syms blocks az lim' = .ok i :=
+  attenuation_monotone_core syms blocks b az lim lim' i hne hnA (oldSame_unnamed blocks b az k hext hun) hruno hnoerr h
 
 /-! non-vacuity: an authority block, an appended block with a fact and a check, an allow policy -/
 section Example
@@ -464,6 +609,15 @@ def exZ : AuthorizerData :=
   { facts := [], rules := [], checks := [], policies := [⟨.allow, [⟨⟨⟨1025, []⟩, [⟨1024, [.int 1]⟩], []⟩, []⟩]⟩], scopes := [] }
 
 example : authorize ⟨[]⟩ ([exA] ++ [exB]) exZ ⟨1000, 100, none⟩ = .ok 0
+    ∧ authorize ⟨[]⟩ [exA] exZ ⟨1000, 100, none⟩ = .ok 0 := by decide
+
+/-- the same appended block carried as a third-party block signed by key 7, which nothing names -/
+def exB3 : Block := { exB with extKey := some 7 }
+
+example : Unnamed 7 [exA] exZ := by
+  constructor <;> simp [exA, exZ]
+
+example : authorize ⟨[]⟩ ([exA] ++ [exB3]) exZ ⟨1000, 100, none⟩ = .ok 0
     ∧ authorize ⟨[]⟩ [exA] exZ ⟨1000, 100, none⟩ = .ok 0 := by decide
 end Example
 
